@@ -1,6 +1,7 @@
 SPECIFICATION Spec
 CONSTANTS Kinds = {"buf", "hmeta", "reply", "rawdata", "geninfo", "cxxref", "bare"}
-  NH = 3 NObj = 3 Max = 4 MaxExtra = 1 AsFound = FALSE
+  NH = 3 NObj = 3 Max = 4 MaxExtra = 1 MaxTries = 2 AsFound = FALSE
+CONSTRAINT QuickBound
 VIEW View
 INVARIANTS TypeOK AliveIffReferenced CountExact NoDangling ObsAgrees
 PROPERTIES RefusedUnchanged DestroyedOnce NoResurrection ReplaceOnce
